@@ -8,8 +8,8 @@ LEVEL = "model_checking"
 MANIFEST = dict(
     level="model_checking",
     text="TLC checks Deterministic (validator of the included list reaches the miner's state; a miner offered only the included list seals the same block) "
-         "for every candidate list of <=2 (thorough: <=3) of 14 transaction kinds (valid, order-dependent, unpayable, wrongly signed, failing after gas was bought, votes, contract creation/call, "
-         "reverting creation included as failed tx, boxes incl. one that hits the block gas limit and one with an invalid later sub-transaction) over 2 blocks; every transition (thorough) or a seeded sample (quick) is executed for real: node A mines with the real "
+         "for every candidate list of <=2 (thorough: <=3) of 16 transaction kinds (valid, order-dependent, unpayable, wrongly signed, failing after gas was bought, votes, contract creation/call, "
+         "reverting creation included as failed tx, boxes incl. one that hits the block gas limit and one with an invalid later sub-transaction, a creation whose CALL gas depends on the emptiness of an account only dropped boxes paid, a ModifySigners that revokes the sender's own key) over 2 blocks; every transition (thorough) or a seeded sample (quick) is executed for real: node A first tries every not yet offered transaction on a throwaway block and then mines with the real "
          "assembler, node A2 mines from the included list only, nodes B and C (C first executes a different sibling block) validate through DPoVP.InsertBlock, B is restarted, "
          "re-fed the chain and validates again; TLC validates that all block hashes agree, every node accepts, and the dumps of every account field agree.",
     note="Go's per-iteration map order randomisation is exercised by the five independent executions of every block (same process, separate node objects and databases). "
@@ -21,11 +21,11 @@ def run(ctx):
     ctx.build()
     dot = ctx.path("blockexec.dot")
     ctx.tlc_exhaustive("BlockExec", "BlockExec_c2.cfg", timeout=900, dump=dot)
-    limit = 300 if ctx.quick() else 0
+    limit = 3000 if ctx.quick() else 0
     files, summ = ctx.replay("blockexec", graph=dot, shards=16, maxlen=10, limit=limit, timeout=3000, chunk=100)
     ok = ctx.validate("TraceBlockExec", "TraceBlockExec.cfg", files, what="candidate lists (<=2) on 4 real nodes", timeout=3000)
     # candidate lists of three (order-dependent triples, a discard between two dependent transactions): simulation
-    sim = ctx.tlc_simulate("BlockExec", "BlockExec_c3.cfg", num=120 if ctx.quick() else 4000, depth=3, prefix="bx3")
+    sim = ctx.tlc_simulate("BlockExec", "BlockExec_c3.cfg", num=600 if ctx.quick() else 6000, depth=3, prefix="bx3")
     files3, summ3 = ctx.replay("blockexec", sim=sim, shards=16, name="blockexec3", timeout=3000, chunk=100)
     ctx.validate("TraceBlockExec", "TraceBlockExec.cfg", files3, what="simulated candidate lists of three", timeout=3000)
     if not ctx.quick():
